@@ -178,7 +178,13 @@ def make_search(mido, depth):
         todo = [op[1]] if op[0] == 'obs' else []
         first = True
         for what in todo + [w for w in OBS if w not in todo]:
-            got = obs if (op[0] == 'obs' and first) else observe(mido, f, what)
+            if op[0] == 'obs' and first:
+                got = obs
+            else:
+                # observe on a rebuilt system so that this probing leaves no
+                # trace (e.g. a populated cache) in the state that is keyed
+                # and expanded
+                got = observe(mido, build(hist + (op,))['f'], what)
             first = False
             exp = observe(mido, fresh_copy(mido, f), what)
             if got != exp:
